@@ -9,7 +9,7 @@ CLAIMS = {
              text="TimeIndex.tla transcribes time.Truncate (epoch aligned, computed unit-wise in 32 bits), the D/M special cases of Truncate and Ceil, the per-suffix IsWithin (ISO week, month and year arithmetic on the local wall clock) and the parse/print functions at token level. TLC enumerates (zone, suffix, multiplier) x a grid of timestamps (year/month/week boundaries, leap day, every offset change, each surrounded by second/half-hour/hour/day/25-hour distances, plus a seeded stride) and checks start <= ts < end, ts inside its own window, start and end delimiting one window, parse-print-parse stability and that the queryable timeframe divides the duration - for the intended behaviour, and for the known behaviour up to the listed deviations. Emitted cases are evaluated by the real functions with timestamps in the configured zone (as ColumnSeries.GetTime delivers them), with and without nanoseconds.",
              note="Reading of the statement: 'window start/end' are taken to delimit one window (the last nanosecond before Ceil(ts) truncates to Truncate(ts) and is inside it; Ceil(ts) starts a window); 'parse and print is stable' is taken semantically (the duration survives print+parse and printing again gives the same text; 1Min printing as 1T is not counted). Multiplier 0 is not a candle duration. Bounded: multipliers 1..60, 90, 120, 1440 (Y: 1..60), 4 zones, 2019-2021. Known findings KF-C31-1..5 are modelled as deviations."),
 }
-import json, os, random, sys, time
+import json, os, random
 import vlib
 from vlib import Result, Undecided
 
@@ -108,14 +108,16 @@ def index_params(tfs, tier, rng):
             stride_m = max(1, n // 150)
             emit_target = 250
         else:
-            if s >= 300:
+            if s >= 900:
                 full = allzy
+            elif s >= 300:      # one seeded year per zone
+                full = [[z + 1, rng.choice(YEARS)] for z in range(nz)]
             elif s >= 60:       # one seeded year for the UTC zone and for one seeded zone with daylight saving
                 full = [[1, rng.choice(YEARS)], [rng.choice([2, 4]), rng.choice(YEARS)]]
             else:
                 full = []
-            hw = 7200 if s >= 10 else 3600
-            stride_m = max(1, n // 5000)
+            hw = 7200 if s >= 10 else 1800
+            stride_m = max(1, n // 2000)
             emit_target = 1500
         emit_m = max(1, n // emit_target)
         out.append(dict(tf, full=full, hw=hw, stride_m=stride_m, stride_r=rng.randrange(stride_m),
@@ -187,7 +189,7 @@ def run_c30(res, tier, rng, binary, zones, tfs, known):
     inp["timeframes"] = index_params(tfs, tier, rng)
     filezone = rng.randrange(len(ZONES))
     inp["filezone"] = filezone + 1
-    r = tlc("index", inp, "TimeIndex_index_%s.cfg" % tier, timeout=600 if tier == "quick" else 3000)
+    r = tlc("index", inp, "TimeIndex_index_%s.cfg" % tier, timeout=600 if tier == "quick" else 5400)
     res.tlc(r, "TimeIndex_index_%s.cfg" % tier)
     cases = {}
     for c in r["records"].get("IX", []):
@@ -273,17 +275,17 @@ def run_c30(res, tier, rng, binary, zones, tfs, known):
 def mults_for(tier, rng):
     if tier == "quick":
         return sorted({1, rng.choice([2, 3, 4, 5, 6, 7, 10, 12, 15, 24, 30, 45, 60, 90, 120, 1440])})
-    return sorted(set(range(1, 13)) | {15, 20, 24, 30, 45, 60, 90, 120, 1440})
+    return sorted(set(range(1, 8)) | {10, 12, 15, 24, 30, 45, 60, 90, 120, 1440})
 
 
 def window_input(inp, tier, rng):
     quick = tier == "quick"
     ms = mults_for(tier, rng)
     inp["cds"] = [{"sfx": s, "m": m} for s in SUFFIXES for m in ms if not (s == "Y" and m > 60)]
-    inp["wdists"] = [0, 1, 3600, 86400, 90000] if quick else [0, 1, 59, 60, 1799, 1800, 3599, 3600, 7199, 7200, 32400, 86399, 86400, 90000]
+    inp["wdists"] = [0, 1, 3600, 86400, 90000] if quick else [0, 1, 59, 60, 1800, 3599, 3600, 7200, 32400, 86399, 86400, 90000]
     lo, hi = 365 * DAY - 14 * DAY, (365 * 3 + 366) * DAY + 14 * DAY      # 2018-12-18 .. 2022-01-15 relative to BASE
     inp["wlo"], inp["whi"] = lo, hi
-    n = 80 if quick else 600
+    n = 80 if quick else 400
     inp["wstride_n"] = n
     inp["wstride_step"] = (hi - lo) // n - rng.randrange(1, 5000)
     inp["wstride_s0"] = lo + rng.randrange(1, 86400)
@@ -377,6 +379,11 @@ def run_parse(res, cases, nstrs, binary, tfs, known):
             model_ok = model_ok and tf_eq(back, c["pd"])
         if tf is None and cd is None:
             stats["unparsable"] += 1
+        if s in names:      # the texts of utils.Timeframes themselves must parse, to the duration listed there
+            if tf is None or cd is None:
+                fails.append("the supported timeframe %r does not parse (TimeframeFromString: %s, CandleDurationFromString: %s)" % (s, tf, cd))
+            elif tf["dur"] != names[s] * 10 ** 9 or cd["dur"] != names[s] * 10 ** 9:
+                fails.append("the supported timeframe %r parses to %d / %d ns, utils.Timeframes lists %d ns" % (s, tf["dur"], cd["dur"], names[s] * 10 ** 9))
         # --- CandleDurationFromString: String round trip, queryable timeframe divides the duration
         if cd is not None and c["m"] > 0:
             cd2 = real.get("cd2")
@@ -480,7 +487,7 @@ def run(prop, tier):
         inp = window_input(base_input(zones, tfs, rng), tier, rng)
         inp["strs"] = parse_strs()
         cfgname = "TimeIndex_candle_%s.cfg" % tier
-        r = tlc("candle", inp, cfgname, timeout=600 if tier == "quick" else 3000)
+        r = tlc("candle", inp, cfgname, timeout=600 if tier == "quick" else 5400)
         res.tlc(r, cfgname)
         run_parse(res, r["records"].get("PR", []), len(inp["strs"]), binary, tfs, known)
         run_window(res, r, rng, binary, known)
